@@ -112,6 +112,13 @@ impl<'g, 'a, 'b> Deriver<'g, 'a, 'b> {
             WsMode::Light => {
                 if skipping && self.src.chance(50) {
                     self.out.push(*self.src.choose(WS_CHARS));
+                    if self.src.chance(40) {
+                        // a run of different whitespace characters
+                        let n = self.src.range(1, 3);
+                        for _ in 0..n {
+                            self.out.push(*self.src.choose(WS_CHARS));
+                        }
+                    }
                 } else if !skipping && self.src.chance(16) {
                     self.out.push(' ');
                 }
@@ -209,7 +216,7 @@ impl<'g, 'a, 'b> Deriver<'g, 'a, 'b> {
             }
             Expr::Star(b) | Expr::Plus(b) => {
                 let min = if matches!(e, Expr::Plus(_)) { 1 } else { 0 };
-                let n = if deep { min } else { min + self.src.weighted(&[4, 5, 3, 1]) };
+                let n = if deep { min } else { min + self.src.weighted(&[16, 20, 12, 4, 2, 1, 1, 1]) };
                 for _ in 0..n {
                     self.expr(b, skipping, depth + 1);
                 }
